@@ -249,7 +249,8 @@ func pathFetchListCerts(b *backend) *framework.Path {
 }
 
 func (b *backend) pathFetchCertList(ctx context.Context, req *logical.Request, data *framework.FieldData) (response *logical.Response, retErr error) {
-	after := data.Get("after").(string)
+	// Serials are listed (and compared with after) in their storage format.
+	after := normalizeSerial(data.Get("after").(string))
 	limit := data.Get("limit").(int)
 	if limit <= 0 {
 		limit = -1
@@ -317,7 +318,8 @@ func (b *backend) pathFetchCertListDetailed(ctx context.Context, req *logical.Re
 	var responseKeys []string
 	responseInfo := make(map[string]any)
 
-	after := data.Get("after").(string)
+	// Serials are listed (and compared with after) in their storage format.
+	after := normalizeSerial(data.Get("after").(string))
 	limit := data.Get("limit").(int)
 	if limit <= 0 {
 		limit = -1
